@@ -1126,10 +1126,12 @@ def strip_jumps(body):
 # C04: range loops inside generators
 
 
-def c04_programs(strlens=(0, 1, 2, 3)):
+def c04_programs(strlens=(0, 1, 2, 3), only_int=False):
     """directed-combinatorial: collection kind x variable form x body shape"""
     progs = []
     kinds = []
+    if only_int:
+        strlens = ()
     for L in strlens:
         kinds.append(("str%d" % L, ["s := rt.NondetString(7, %d)" % L], "s", "int", "rune", ["s = \"zz\""]))
     kinds.append(("slice3", ["sl := []int{a, b, a + b}"], "sl", "int", "int", ["sl[1] = b + 7", "sl = append(sl, a + 9)", "sl = sl[:1]", "sl[2] = sl[0] + 1"]))
@@ -1139,6 +1141,9 @@ def c04_programs(strlens=(0, 1, 2, 3)):
     kinds.append(("mapii", ["m := map[int]int{1: a, 2: b, 3: a + b}"], "m", "int", "int", ["delete(m, 2)", "m[3] = b + 7", "delete(m, 3)"]))
     kinds.append(("mapnil", ["var m map[int]int"], "m", "int", "int", []))
     kinds.append(("chan", ["ch := make(chan int, 3)\nch <- a\nch <- b\nclose(ch)"], "ch", "int", None, []))
+    if only_int:
+        # range over an integer (go >= 1.22 sources): n symbolic in the driver's range, also n <= 0
+        kinds = [("intn", [], "n", "int", None, ["n = n + 5"]), ("intexpr", ["m := n + 1"], "m - 1", "int", None, ["m = 0"])]
     for kname, setup, coll, kt, vt, muts in kinds:
         forms = [("kv", "k", "v", ":="), ("k", "k", None, ":="), ("v", "_", "v", ":="), ("none", None, None, ":="), ("assign", "k", "v", "="),
                  ("assignv", "_", "v", "="), ("assignk", "k", None, "=")]
